@@ -260,6 +260,21 @@ def _oracle_docs_failures(a):
                 except Exception as e:  # noqa: BLE001
                     yield f"DTD-valid document {doc} rejected ({opts}): {type(e).__name__}: {e}"
                     continue
+                # "nothing retyped": an enumerated attribute is held as a member of its enumeration, also when it
+                # comes from the default / #FIXED value
+                import enum as _enum
+
+                fmap = {f.metadata.get("name", f.name): f.name for f in dataclasses.fields(R)}
+                bad_type = None
+                for i in attrs:
+                    _, name, kind = ATTR_VARIANTS[i]
+                    if kind in ("enum", "enumx") and name in fmap:
+                        v = getattr(obj, fmap[name])
+                        if v is not None and not isinstance(v, _enum.Enum):
+                            bad_type = f"document {doc}: enumerated attribute {name} is held as {v!r} ({type(v).__name__}), not as a member of its enumeration ({opts})"
+                if bad_type:
+                    yield bad_type
+                    continue
                 # DTDs are prefix-sensitive: serialise with the prefixes the DTD declares
                 user_map = {p: f"urn:{p}" for p in ns["decls"]} if ns else None
                 out = XmlSerializer(context=ctx).render(obj, ns_map=user_map)
